@@ -1,4 +1,5 @@
 mod c35;
+mod case;
 mod simrun;
 
 fn main() {
@@ -7,6 +8,10 @@ fn main() {
     vcore::quiet_panics();
     if id == "C35-exp" {
         c35::experiment(&args[1..]);
+        return;
+    }
+    if id == "C35-gen" {
+        c35::show_case(&args[1..]);
         return;
     }
     let ctx = vcore::Ctx::new(&id, &args[1.min(args.len())..]);
